@@ -59,6 +59,16 @@ static long fetch_and_dec(volatile long& x) {
 	return InterlockedDecrement(&x) + 1;
 }
 #endif
+#if defined(POTASSCO_LIBPOTASSCO_VERIF)
+// verification hook: a scheduler installed by a test harness is called between the atomic steps of
+// processSignal/unblockSignals (k identifies the step that follows); it may call processSignal itself.
+namespace Potassco { void (*verifYieldHook_g)(int) = 0; }
+#define POTASSCO_VERIF_YIELD(k)   { if (Potassco::verifYieldHook_g) { Potassco::verifYieldHook_g(k); } }
+#define POTASSCO_VERIF_YIELD_C(k) ((Potassco::verifYieldHook_g ? Potassco::verifYieldHook_g(k) : (void)0), true) &&
+#else
+#define POTASSCO_VERIF_YIELD(k)
+#define POTASSCO_VERIF_YIELD_C(k)
+#endif
 using namespace Potassco::ProgramOptions;
 using namespace std;
 namespace Potassco {
@@ -178,7 +188,9 @@ int Application::blockSignals() {
 // Re-enable signal handling and deliver any pending signal.
 void Application::unblockSignals(bool deliverPending) {
 	if (fetch_and_dec(blocked_) == 1) {
+		POTASSCO_VERIF_YIELD(9)
 		int pend = pending_;
+		POTASSCO_VERIF_YIELD(10)
 		pending_ = 0;
 		// directly deliver any pending signal to our sig handler
 		if (pend && deliverPending) { processSignal(pend); }
@@ -196,13 +208,17 @@ void Application::sigHandler(int sig) {
 
 // Called on timeout or signal.
 void Application::processSignal(int sig) {
+	POTASSCO_VERIF_YIELD(1)
 	if (fetch_and_inc(blocked_) == 0) {
+		POTASSCO_VERIF_YIELD(2)
 		if (!onSignal(sig)) { return; } // block further signals
 	}
-	else if (pending_ == 0) { // signals are currently blocked because output is active
+	else if (POTASSCO_VERIF_YIELD_C(4) pending_ == 0) { // signals are currently blocked because output is active
 		info("Queueing signal...");
+		POTASSCO_VERIF_YIELD(5)
 		pending_ = sig;
 	}
+	POTASSCO_VERIF_YIELD(6)
 	fetch_and_dec(blocked_);
 }
 
